@@ -41,13 +41,20 @@ def run(tier, mode):
     for i in range(n):
         D = P.gen_desc(r, multiline=(i % 7 == 0))
         layout = P.LAYOUTS[i % 4]
-        text = P.render(r, D, layout)
+        short = (i % 3 == 1)
+        if short:   # short blocks and bare connectors: the Twp/Rge-desc-Sec vs Twp/Rge-Sec-desc decision is made on the length of the first block
+            D = P.gen_desc(r, blocks=['NE/4', 'NENE', 'S/2', 'ALL', 'W/2', 'SWNW', 'Lot 1', 'N/2N/2'])
+        text = P.render(r, D, layout, conns=[' of ', ', ', ' ', '\n', ' in '] if short else None)
+        short_first = layout == 'TR_desc_S' and any(len((secs[0][1] + c).strip()) < 4 for (_, secs), c in zip(D, P.LAST_CONNS))
         texts.append(text)
         dist[layout] += 1
         n_or += 1
         detail = {'text': text, 'layout': layout, 'D': repr(D)[:300]}
+        nf = len(fails)
         d = judge(pytrs, text, D, layout, fails, detail)
         if d is None:
+            if short_first and len(fails) > nf:
+                fails[-1]['known_id'] = 'C01-short-first-block'
             continue
         if len(P.expected_tracts(D)) > 2:
             nontriv.add(text)
